@@ -41,20 +41,22 @@ Universe == IF Kind \in GeneKinds THEN GeneUniverse ELSE I.M.rxns
 IsPairKind == Kind \in {"drd", "dgd"}
 AllItems == IF IsPairKind THEN Pairs(Universe, Universe) ELSE Singles(Universe)
 
-L1(c) == IF c.dflt THEN Universe ELSE c.l1
-L2(c) == IF c.dflt THEN Universe ELSE c.l2
+ReqL1(c) == IF c.dflt THEN Universe ELSE c.l1
+ReqL2(c) == IF c.dflt THEN Universe ELSE c.l2
 ReqItems(c) == IF Kind \in SetKinds \ {"blocked"} THEN Singles(Universe)
-               ELSE IF IsPairKind THEN Pairs(L1(c), L2(c)) ELSE Singles(L1(c))
+               ELSE IF IsPairKind THEN Pairs(ReqL1(c), ReqL2(c)) ELSE Singles(ReqL1(c))
 
 \* ---------------------------------------------------------------- the lattice expectation
 NoExp == [decides |-> FALSE, inscope |-> FALSE, raises |-> "unknown", rows |-> <<>>, set |-> {}]
+LatticeApplies == Kind # "optgp" /\ IsUnitNetwork(I.M) /\ AllFinite(I.M) /\ BoundsOrdered(I.M)
+\* the analyses that start with an optimisation of the model refuse an infeasible model; deletions report nan
+ExpRaises == IF Kind \in FvaKinds \cup SetKinds /\ Infeasible(I.M) THEN "Infeasible" ELSE "none"
 Expectation ==
-  IF Kind = "optgp" \/ ~LatticeDecides(I, Kind) THEN
-     IF Kind \in FvaKinds \cup {"essg", "essr", "blocked"} /\ Kind # "optgp" /\ IsUnitNetwork(I.M) /\ AllFinite(I.M) /\ Infeasible(I.M)
-     THEN [NoExp EXCEPT !.raises = "Infeasible"] ELSE NoExp
+  IF ~LatticeApplies THEN NoExp
+  ELSE IF ~LatticeDecides(I, Kind) THEN [NoExp EXCEPT !.raises = ExpRaises]
   ELSE LET F == Feasible(I.M) opt == IF HasOpt(I.M) THEN Opt(I.M) ELSE 0 IN
-       [decides |-> TRUE, inscope |-> FvaInScope(I, Kind), raises |-> "none",
-        rows |-> IF Kind \in SetKinds THEN <<>> ELSE [t \in AllItems |-> ExpRow(I, Kind, t, F, opt)],
+       [decides |-> TRUE, inscope |-> FvaInScope(I, Kind), raises |-> ExpRaises,
+        rows |-> IF Kind \in SetKinds \/ ~FvaInScope(I, Kind) THEN <<>> ELSE [t \in AllItems |-> ExpRow(I, Kind, t, F, opt)],
         set |-> IF Kind \in {"essg", "essr"} THEN ExpEssential(I, Kind) ELSE {}]
 
 \* ---------------------------------------------------------------- rows
@@ -69,7 +71,7 @@ RowsAreRequested(c) ==
   /\ \A i, j \in 1..Len(c.rows) : RowItem(c.rows[i]) = RowItem(c.rows[j]) => i = j      \* one row per item
   /\ {RowItem(c.rows[i]) : i \in 1..Len(c.rows)} = ReqItems(c)                          \* rows = requested items
 EqualsReference(c) ==
-  IF Kind \in SetKinds THEN SetRes(c) = SetRes(Ref) \cap ReqItemsOrAll(c)
+  IF Kind \in SetKinds THEN SetRes(c) = SetRes(Ref) \cap ReqItems(c)
   ELSE \A i \in 1..Len(c.rows) : HasRow(Ref, RowItem(c.rows[i])) => SameRow(c.rows[i], RowOfItem(Ref, RowItem(c.rows[i])))
 EqualsLattice(c) ==
   IF Kind \in {"essg", "essr"} THEN SetRes(c) = exp.set
@@ -77,7 +79,7 @@ EqualsLattice(c) ==
 
 \* ---------------------------------------------------------------- worker events
 W(c) == c.workers
-EvIdx(c) == {<<w, i>> \in (1..Len(W(c))) \X (1..20000) : i <= Len(W(c)[w])}
+EvIdx(c) == UNION {{<<w, i>> : i \in 1..Len(W(c)[w])} : w \in 1..Len(W(c))}
 Ev(c, x) == W(c)[x[1]][x[2]]
 Passes == IF Kind \in FvaKinds \cup {"blocked"} THEN {"min", "max"} ELSE {"-"}
 Count(c, e, t, pass) ==
@@ -115,7 +117,7 @@ ChunkShapeOK(ps, n, cs) ==
     /\ p = ChunkLo(k, cs) \/ (i > 1 /\ ps[i - 1] = p - 1)
     /\ p = ChunkHi(k, n, cs) \/ (i < Len(ps) /\ ps[i + 1] = p + 1)
 ChunkShape(c) ==
-  LET order == L1(c) n == Len(order) cs == ChunkSize(n, c.P) IN
+  LET order == ReqL1(c) n == Len(order) cs == ChunkSize(n, c.P) IN
   \A w \in 1..Len(W(c)) : \A pass \in Passes :
     LET b == SelectSeq(W(c)[w], LAMBDA e : e.e = "b" /\ e.pass = pass)
         ps == [i \in 1..Len(b) |-> PosOf(order, b[i].task[1])] IN
@@ -124,8 +126,6 @@ ChunkShape(c) ==
 WorkerCount(c) ==
   LET n == Cardinality(ReqItems(c)) pe == MaxOf(1, PEff(n, c.P)) IN
   Len(W(c)) <= (IF Kind \in FvaKinds \cup {"blocked"} /\ pe > 1 THEN 2 * pe ELSE pe)
-
-ReqItemsOrAll(c) == ReqItems(c)
 
 \* ---------------------------------------------------------------- parallel sampling (OptGP)
 \* call = [P, n, seed, thin, ds, raises, rows : Seq(Seq(Int)) in 10^-8 fixed point, digest : STRING,
